@@ -21,7 +21,8 @@ PROPS = {
  'C07': dict(level='proof', sections=None, result_ops=['*'], monitors=[]),
  'C08': dict(level='proof', sections=[], result_ops=['tx'], monitors=[]),
  'C09': dict(level='proof', sections=IDX, result_ops=['query'], monitors=['indices', 'queues'], uses_generated=True),
- 'C10': dict(level='proof', sections=None, result_ops=['*'], monitors=[], uses_generated=True),
+ 'C10': dict(level='proof', sections=None, result_ops=['*'], monitors=[], uses_generated=True, determinism=True,
+             partial='runtime half (goroutine scheduling, map seeds) is differential only: re-executions compared byte for byte incl. app hash'),
  'C11': dict(level='proof', sections=['vpn/node/10', 'param'], result_ops=['tx:nodeRegister', 'tx:nodeUpdate', 'tx:nodeSubscribe', 'gov'], monitors=['prices']),
  'C12': dict(level='proof', sections=None, result_ops=['export', 'reimport'], monitors=[]),
  'C13': dict(level='proof', sections=[], result_ops=['query'], monitors=[], uses_generated=True, probe=True),
